@@ -48,7 +48,8 @@ Proof. vm_compute. reflexivity. Qed.
    that calls trackConn), the guarded fields are used, and the mutex is taken by serve, trackConn,
    Shutdown and Addr *)
 Definition uses (f : string) (s : stmt) : bool := match s with Use g _ => String.eqb g f | _ => false end.
-Definition locks (s : stmt) : bool := match s with Lock "Server.mu" => true | _ => false end.
+Definition locks (s : stmt) : bool :=
+  match s with Lock "Server.mu" | RLock "Server.mu" => true | _ => false end.
 Definition calls (f : string) (s : stmt) : bool := match s with Call g => String.eqb g f | _ => false end.
 Definition body_of (n : string) : list stmt :=
   match find_fn (p_funcs Skeletons.server) n with Some f => fn_body f | None => [] end.
